@@ -44,8 +44,10 @@ Theorem C23_extra_comments_same_locations : forall cf optlocs gaps rs used1 used
 Proof. exact extra_comments_same_locations_lemma. Qed.
 Print Assumptions C23_extra_comments_same_locations.
 
-(* ... but NOT only added comments: a location can lose its comment to one generated before it with newLoc
-   (witness: a group without label inside a oneof, see refute_reqs) *)
+(* ... but for an arbitrary sequence of calls NOT only added comments: a location can lose its comment to one
+   generated before it with newLoc.  The witness refute_reqs is the sequence the walk issued for a group
+   without label inside a oneof before the repair 216acdc1 (newLoc on the keyword group, the first token);
+   since then the walk issues newLocWithoutComments there and the guard of the next theorem holds for it *)
 Theorem C23_extra_comments_only_add_refuted :
   exists cf gaps rs, ~ Forall2 keeps (gen_locs cf false false gaps [] rs) (gen_locs cf true false gaps [] rs).
 Proof. exact extra_comments_only_add_refuted_lemma. Qed.
@@ -74,6 +76,13 @@ Theorem C23_extra_option_locs_same_other_locations : forall cf extra gaps rs use
   = map shape (gen_locs cf extra false gaps used2 rs).
 Proof. exact extra_option_locs_shapes_lemma. Qed.
 Print Assumptions C23_extra_option_locs_same_other_locations.
+
+(* every comment of a gap, delimiters included, is a piece of the bytes between the two tokens *)
+Theorem C23_comment_units_in_source : forall prev bs next g u,
+  gap_of_bytes prev bs next = Some g -> In u (g_units g) ->
+  exists a b, bs = a ++ delim (u_blk u) ++ u_text u ++ b.
+Proof. exact gap_units_in_source_lemma. Qed.
+Print Assumptions C23_comment_units_in_source.
 
 (* non-vacuity: a two-line span and a one-line span *)
 Example C23_nonvacuous :
